@@ -182,6 +182,29 @@ theorem host_zone_stripped (u : Url) (own caller : Headers) (a d z : Str)
   refine ⟨v, hf, hnv, hvals, ?_⟩
   simp [hostOk, hvals, hnv]
 
+/-- **What is assumed of `urlparse`, made explicit.**  `fixedHostText` transcribes `_fixed_host_header`
+    statement by statement at TEXT level (the `"%" not in url` shortcut, the falsy-hostname test,
+    `hostname[:hostname.rindex("%")]`, the bracket rule, the port); `urlparseHostname` / `urlparsePort`
+    (`Model/C17Ladder.lean`) state the only facts assumed of `urllib.parse.urlparse`: `.hostname` is the
+    lower-cased host (bracket content, zone included), `.port` the port.  Under exactly these, for every
+    well-formed URL of the grammar the text-level function equals the grammar-level `fixedHost` that
+    `host_zone_stripped` is about.  The assumption itself is compared with the real `urlparse` on every
+    harness case (driver line `parse`). -/
+theorem fixed_host_text (u : Url) (hw : WfUrl u) :
+    fixedHostText u.render (some (urlparseHostname u)) (urlparsePort u) = fixedHost u :=
+  fixedHostText_eq u hw
+
+/-- non-vacuity of `fixed_host_text` (both zone-delimiter spellings; a `%` in the path only) -/
+example :
+    fixedHostText "http://[FE80::1%25eth0]:8080/x".toList (some "fe80::1%25eth0".toList) (some "8080".toList)
+      = some "[fe80::1]:8080".toList
+    ∧ fixedHostText "http://[fe80::1%10]/desc".toList (some "fe80::1%10".toList) none = some "[fe80::1]".toList
+    ∧ fixedHostText "http://[fe80::1]:8000/root%desc".toList (some "fe80::1".toList) (some "8000".toList) = none
+    ∧ WfUrl { scheme := "http".toList, host := .zoned "FE80::1".toList "%25".toList "eth0".toList,
+              port := some "8080".toList, path := "/x".toList } := by
+  refine ⟨by decide, by decide, by decide, ?_⟩
+  exact ⟨by decide, by decide, "25".toList, rfl, by decide⟩
+
 /-- without a zone nothing is contributed: the headers are the plain merge `{**own, **caller}` -/
 theorem host_untouched_without_zone (u : Url) (own caller : Headers) (h : hasZone u = false) :
     requestHeaders u own caller = merge own caller := by
